@@ -131,6 +131,49 @@ def generate(root=None, force=False):
         lock.close()
 
 
+def controls():
+    """Facts of the positive-control crate (/verif/engine/controls), cached by its content + driver hash."""
+    cdir = os.path.join(VERIF, "engine", "controls")
+    h = hashlib.sha256()
+    for rel in ("src/lib.rs", "Cargo.toml"):
+        with open(os.path.join(cdir, rel), "rb") as f:
+            h.update(f.read())
+    for dp, _, fns in os.walk(os.path.join(DRIVER_DIR, "src")):
+        for fn in sorted(fns):
+            with open(os.path.join(dp, fn), "rb") as f:
+                h.update(f.read())
+    key = h.hexdigest()[:24]
+    out = os.path.join(CACHE, "controls-facts", key)
+    fact = os.path.join(out, "controls.json")
+    if not os.path.exists(fact):
+        lock = _lock("controls")
+        try:
+            if not os.path.exists(fact):
+                if not os.path.exists(DRIVER):
+                    build_driver()
+                shutil.rmtree(os.path.join(CACHE, "controls-facts"), ignore_errors=True)
+                os.makedirs(out)
+                target = os.path.join(CACHE, "target-controls")
+                shutil.rmtree(target, ignore_errors=True)
+                env = dict(os.environ)
+                env.update({
+                    "LD_LIBRARY_PATH": os.path.join(nightly_sysroot(), "lib"),
+                    "RUSTFLAGS": "-Zmir-opt-level=0 -Awarnings",
+                    "RUSTC_WORKSPACE_WRAPPER": DRIVER,
+                    "FACTGEN_OUT": out,
+                    "CARGO_TARGET_DIR": target,
+                    "CARGO_NET_OFFLINE": "true",
+                })
+                env.pop("RUSTC_WRAPPER", None)
+                r = subprocess.run(["cargo", "+nightly", "check", "--offline"], cwd=cdir, env=env,
+                                   stdout=subprocess.PIPE, stderr=subprocess.STDOUT, text=True)
+                if r.returncode != 0 or not os.path.exists(fact):
+                    raise InfraError("positive-control crate does not build under the driver:\n" + r.stdout[-3000:])
+        finally:
+            lock.close()
+    return Crate(fact)
+
+
 class Crate:
     def __init__(self, path):
         with open(path) as f:
